@@ -5,7 +5,7 @@ real `consensus.ConsensusState`).
 The statements are about `stepCore`/`step`/`run` of the model.  Two hypotheses appear:
 * `W s` (well-formed state): `s.step ≤ 9` and, when locked, `lockedRound*16+6 ≤ round*16+step` (the lock was taken by
   `enterPrecommit` of a round the node has been through).  `W` holds initially and is preserved by every step (`step_W`).
-* `WellTimed s i`: a timeout input is for a round `≤ s.round`.  The real ticker only fires timeouts the node scheduled, and it
+* `WellTimed s i`: a timeout input for the node's height is for a round `≤ s.round`.  The real ticker only fires timeouts the node scheduled, and it
   schedules them for its current round; rounds never decrease.  WITHOUT this hypothesis the discipline is false of the model
   (and of the code): `enterPrevote`/`enterPrecommit(height, round)` sign with `cs.Round`, not with their `round` argument, so a
   timeout for a future round makes the node vote a second time in its current round — `votes_once_needs_timed` is the witness.
@@ -95,7 +95,8 @@ theorem D3C_split {tbl : Nat → VSet} : ∀ {pre post : List Out} {o : Out}, D3
 def G (s s' : St) : Prop :=
   W s → W s' ∧ s'.height = s.height ∧ (∀ q, s'.rv q = s.rv q) ∧ mu s ≤ mu s' ∧ LockEv s.pvs s s' ∧ s'.powers = s.powers ∧
     ∃ new, s'.out = s.out ++ new ∧ Chain (mu s) new (mu s') ∧ (∀ o ∈ new, Just s.pvs s.pcs s o) ∧
-      (∀ h r v, Out.vote tPrecommit h r v ∈ new → v ≠ 0 → Held s.pvs s' v r) ∧ D3C s.pvs new
+      (∀ h r v, Out.vote tPrecommit h r v ∈ new → v ≠ 0 → Held s.pvs s' v r) ∧ D3C s.pvs new ∧
+      (∀ h r st, Out.timeout h r st ∈ new → h = s.height ∧ r ≤ s'.round)
 
 theorem Chain_mono_start {a b : Nat} (hab : a ≤ b) : ∀ {l : List Out} {m : Nat}, Chain b l m → Chain a l m
   | [], _, h => by simp [Chain] at *; omega
@@ -160,7 +161,7 @@ theorem Released_mono {tbl : Nat → VSet} {lv lr lr' R R' : Nat} (h : Released 
 
 theorem G.refl (s : St) : G s s := by
   intro hw
-  refine ⟨hw, rfl, fun _ => rfl, Nat.le_refl _, ?_, rfl, [], by simp, by simp [Chain], by simp, by simp, by simp [D3C]⟩
+  refine ⟨hw, rfl, fun _ => rfl, Nat.le_refl _, ?_, rfl, [], by simp, by simp [Chain], by simp, by simp, by simp [D3C], by simp⟩
   intro h; exact Or.inl ⟨rfl, Nat.le_refl _⟩
 
 theorem pvs_eq_of_rv {a b : St} (h : ∀ q, b.rv q = a.rv q) : b.pvs = a.pvs := by
@@ -171,13 +172,13 @@ theorem pcs_eq_of_rv {a b : St} (h : ∀ q, b.rv q = a.rv q) : b.pcs = a.pcs := 
 
 theorem G.trans {a b c : St} (h1 : G a b) (h2 : G b c) : G a c := by
   intro hwa
-  obtain ⟨hwb, hh1, hrv1, hmu1, hlev1, hp1, new1, hout1, hch1, hj1, hk1, hd1⟩ := h1 hwa
-  obtain ⟨hwc, hh2, hrv2, hmu2, hlev2, hp2, new2, hout2, hch2, hj2, hk2, hd2⟩ := h2 hwb
+  obtain ⟨hwb, hh1, hrv1, hmu1, hlev1, hp1, new1, hout1, hch1, hj1, hk1, hd1, ht1⟩ := h1 hwa
+  obtain ⟨hwc, hh2, hrv2, hmu2, hlev2, hp2, new2, hout2, hch2, hj2, hk2, hd2, ht2⟩ := h2 hwb
   have hpv : b.pvs = a.pvs := pvs_eq_of_rv hrv1
   have hpc : b.pcs = a.pcs := pcs_eq_of_rv hrv1
   have hrbc : b.round ≤ c.round := round_le_of_mu hmu2 hwc.1
   refine ⟨hwc, by rw [hh2, hh1], fun q => by rw [hrv2 q, hrv1 q], Nat.le_trans hmu1 hmu2, ?_, by rw [hp2, hp1], new1 ++ new2,
-    by rw [hout2, hout1, List.append_assoc], Chain_append hch1 hch2, ?_, ?_, ?_⟩
+    by rw [hout2, hout1, List.append_assoc], Chain_append hch1 hch2, ?_, ?_, ?_, ?_⟩
   · -- lock evolution
     intro hlv
     rcases hlev1 hlv with ⟨e1, e2⟩ | hrel
@@ -244,12 +245,17 @@ theorem G.trans {a b c : St} (h1 : G a b) (h2 : G b c) : G a c := by
         rw [hpv, e1] at hrel2
         exact Released_mono hrel2 e2 (Nat.le_refl _)
     · exact Or.inr (Released_mono hrel (Nat.le_refl _) hbr)
+  · -- scheduled timeouts are for the node's height and a round it has reached
+    intro h r st hm
+    rcases List.mem_append.1 hm with hm | hm
+    · have := ht1 h r st hm; exact ⟨this.1, Nat.le_trans this.2 hrbc⟩
+    · have := ht2 h r st hm; exact ⟨by rw [this.1, hh1], this.2⟩
 
 /-! ## the internal transitions satisfy `G` -/
 
 theorem G_die (s : St) : G s (die s) := by
   intro hw
-  refine ⟨hw, rfl, fun _ => rfl, Nat.le_refl _, ?_, rfl, [], by simp [die], by simp [Chain, die, mu], by simp, by simp, by simp [D3C]⟩
+  refine ⟨hw, rfl, fun _ => rfl, Nat.le_refl _, ?_, rfl, [], by simp [die], by simp [Chain, die, mu], by simp, by simp, by simp [D3C], by simp⟩
   intro h; exact Or.inl ⟨rfl, Nat.le_refl _⟩
 
 theorem enterPrevote_G (s : St) (h r : Nat) (hr : r ≤ s.round) : G s (enterPrevote s h r) := by
@@ -277,7 +283,7 @@ theorem enterPrevote_G (s : St) (h r : Nat) (hr : r ≤ s.round) : G s (enterPre
     · exact ⟨_, rfl, fun h => absurd h hl⟩
   obtain ⟨v, hv, hlk⟩ := key
   rw [hv]
-  refine ⟨?_, rfl, fun _ => rfl, ?_, ?_, rfl, [.vote tPrevote s.height s.round v], by simp [emit], ?_, ?_, ?_, by simp [D3C]⟩
+  refine ⟨?_, rfl, fun _ => rfl, ?_, ?_, rfl, [.vote tPrevote s.height s.round v], by simp [emit], ?_, ?_, ?_, by simp [D3C], by simp⟩
   · refine ⟨by simp [emit, sPrevote], fun hl => ?_⟩
     have := hw.2 hl
     simp [emit, mu, sPrevote] at this ⊢; omega
@@ -309,10 +315,11 @@ theorem D3C_plain {tbl : Nat → VSet} : ∀ {new : List Out},
 /-- a transition that leaves height, vote tables and lock alone and emits only proposals/timeouts -/
 theorem G_plain {s s' : St} (new : List Out) (hh : s'.height = s.height) (hrv : s'.rvs = s.rvs)
     (hlv : s'.lockedValue = s.lockedValue) (hlr : s'.lockedRound = s.lockedRound) (hmu : mu s ≤ mu s') (hst : s'.step ≤ 9)
-    (hpow : s'.powers = s.powers) (hout : s'.out = s.out ++ new) (hnew : ∀ o ∈ new, (∃ h r pol v, o = .proposal h r pol v) ∨ (∃ h r st, o = .timeout h r st)) :
+    (hpow : s'.powers = s.powers) (hout : s'.out = s.out ++ new) (hnew : ∀ o ∈ new, (∃ h r pol v, o = .proposal h r pol v) ∨ (∃ h r st, o = .timeout h r st))
+    (htm : ∀ h r st, Out.timeout h r st ∈ new → h = s.height ∧ r ≤ s'.round) :
     G s s' := by
   intro hw
-  refine ⟨⟨hst, fun hl => ?_⟩, hh, fun q => by simp [St.rv, hrv], hmu, fun _ => Or.inl ⟨hlv, by omega⟩, hpow, new, hout, ?_, ?_, ?_, ?_⟩
+  refine ⟨⟨hst, fun hl => ?_⟩, hh, fun q => by simp [St.rv, hrv], hmu, fun _ => Or.inl ⟨hlv, by omega⟩, hpow, new, hout, ?_, ?_, ?_, ?_, htm⟩
   · rw [hlv] at hl; have := hw.2 hl; rw [hlr]; omega
   · apply Chain_plain hmu
     intro o ho
@@ -344,16 +351,18 @@ theorem proposeCore_fields (s : St) (h r : Nat) :
     · rw [e]; simp [emit]
   · simp [emit]
 
-theorem proposeCore_G (s : St) (h : Nat) (hst : s.step < 3) : G s (proposeCore s h s.round) := by
+theorem proposeCore_G (s : St) (h : Nat) (hst : s.step < 3) (hh : s.height = h) : G s (proposeCore s h s.round) := by
   obtain ⟨f1, f2, f3, f4, f5, f6, _, fp, f8⟩ := proposeCore_fields s h s.round
   have hmu : mu s ≤ mu (proposeCore s h s.round) := by simp [mu, f1, f2, sPropose]; omega
   rcases f8 with e | ⟨pol, v, e⟩
-  · refine G_plain _ f3 f4 f5 f6 hmu (by simp [f2, sPropose]) fp e ?_
-    intro o ho; simp at ho; subst ho; exact Or.inr ⟨_, _, _, rfl⟩
-  · refine G_plain _ f3 f4 f5 f6 hmu (by simp [f2, sPropose]) fp e ?_
-    intro o ho; simp at ho; rcases ho with rfl | rfl
-    · exact Or.inr ⟨_, _, _, rfl⟩
-    · exact Or.inl ⟨_, _, _, _, rfl⟩
+  · refine G_plain _ f3 f4 f5 f6 hmu (by simp [f2, sPropose]) fp e ?_ ?_
+    · intro o ho; simp at ho; subst ho; exact Or.inr ⟨_, _, _, rfl⟩
+    · intro h' r' st' hm; simp at hm; obtain ⟨e1, e2, _⟩ := hm; subst e1; subst e2; exact ⟨hh.symm, by rw [f1]; exact Nat.le_refl _⟩
+  · refine G_plain _ f3 f4 f5 f6 hmu (by simp [f2, sPropose]) fp e ?_ ?_
+    · intro o ho; simp at ho; rcases ho with rfl | rfl
+      · exact Or.inr ⟨_, _, _, rfl⟩
+      · exact Or.inl ⟨_, _, _, _, rfl⟩
+    · intro h' r' st' hm; simp at hm; obtain ⟨e1, e2, _⟩ := hm; subst e1; subst e2; exact ⟨hh.symm, by rw [f1]; exact Nat.le_refl _⟩
 
 theorem enterPropose_G (s : St) (h r : Nat) (hr : r ≤ s.round) : G s (enterPropose s h r) := by
   unfold enterPropose
@@ -365,10 +374,11 @@ theorem enterPropose_G (s : St) (h r : Nat) (hr : r ≤ s.round) : G s (enterPro
   have hr' : r = s.round := by omega
   have hst : s.step < 3 := by simp [sPropose] at hg; omega
   subst hr'
+  have hh : s.height = h := by simp at hg; exact hg.1
   simp only
   split
-  · exact G.trans (proposeCore_G s h hst) (enterPrevote_G _ _ _ (Nat.le_refl _))
-  · exact proposeCore_G s h hst
+  · exact G.trans (proposeCore_G s h hst hh) (enterPrevote_G _ _ _ (Nat.le_refl _))
+  · exact proposeCore_G s h hst hh
 
 theorem alookup_append_empty (acc : List (Nat × RV)) (k q : Nat) :
     (alookup (acc ++ [(k, RV.empty)]) q).getD RV.empty = (alookup acc q).getD RV.empty := by
@@ -408,7 +418,7 @@ theorem setRound_G (s : St) (r : Nat) : G s (setRound s r) := by
     unfold setRound; split <;> simp [die]
   obtain ⟨f1, f2, f3, f4, f5, f6, fp⟩ := hf
   have hmu : mu (setRound s r) = mu s := by simp [mu, f4, f5]
-  refine ⟨⟨by rw [f5]; exact hw.1, fun hl => ?_⟩, f1, setRound_rv s r, by omega, fun _ => Or.inl ⟨f2, by omega⟩, fp, [], by simp [f6], by simp [Chain, hmu], by simp, by simp, by simp [D3C]⟩
+  refine ⟨⟨by rw [f5]; exact hw.1, fun hl => ?_⟩, f1, setRound_rv s r, by omega, fun _ => Or.inl ⟨f2, by omega⟩, fp, [], by simp [f6], by simp [Chain, hmu], by simp, by simp, by simp [D3C], by simp⟩
   rw [f2] at hl; have := hw.2 hl; rw [f3, hmu]; exact this
 
 theorem newRoundCore_fields (s : St) (r : Nat) (vals : Model.ValSet.VS) :
@@ -431,7 +441,7 @@ theorem newRoundCore_G (s : St) (r : Nat) (vals : Model.ValSet.VS) (hg : s.round
     have := hw.1
     simp [sNewHeight] at hg
     omega
-  refine ⟨⟨by simp [f2, sNewRound], fun hl => ?_⟩, f3, f7, hmu, fun _ => Or.inl ⟨f4, by omega⟩, fp, [], by simp [f6], by simpa [Chain] using hmu, by simp, by simp, by simp [D3C]⟩
+  refine ⟨⟨by simp [f2, sNewRound], fun hl => ?_⟩, f3, f7, hmu, fun _ => Or.inl ⟨f4, by omega⟩, fp, [], by simp [f6], by simpa [Chain] using hmu, by simp, by simp, by simp [D3C], by simp⟩
   rw [f4] at hl; have := hw.2 hl; rw [f5]; omega
 
 theorem enterNewRound_G (s : St) (h r : Nat) : G s (enterNewRound s h r) := by
@@ -464,9 +474,11 @@ theorem enterPrevoteWait_G (s : St) (h r : Nat) (hr : r ≤ s.round) : G s (ente
   have hr' : r = s.round := by omega
   have hst : s.step < 5 := by simp [sPrevoteWait] at hg; omega
   subst hr'
-  refine G_plain [.timeout h s.round sPrevoteWait] rfl rfl rfl rfl ?_ (by simp [sPrevoteWait]) rfl (by simp [emit]) ?_
+  have hh : s.height = h := by simp at hg; exact hg.1
+  refine G_plain [.timeout h s.round sPrevoteWait] rfl rfl rfl rfl ?_ (by simp [sPrevoteWait]) rfl (by simp [emit]) ?_ ?_
   · simp [mu, sPrevoteWait]; omega
   · intro o ho; simp at ho; subst ho; exact Or.inr ⟨_, _, _, rfl⟩
+  · intro h' r' st' hm; simp at hm; obtain ⟨e1, e2, _⟩ := hm; subst e1; subst e2; exact ⟨hh.symm, Nat.le_refl _⟩
 
 theorem enterPrecommitWait_G (s : St) (h r : Nat) (hr : r ≤ s.round) : G s (enterPrecommitWait s h r) := by
   unfold enterPrecommitWait
@@ -480,9 +492,11 @@ theorem enterPrecommitWait_G (s : St) (h r : Nat) (hr : r ≤ s.round) : G s (en
   have hr' : r = s.round := by omega
   have hst : s.step < 7 := by simp [sPrecommitWait] at hg; omega
   subst hr'
-  refine G_plain [.timeout h s.round sPrecommitWait] rfl rfl rfl rfl ?_ (by simp [sPrecommitWait]) rfl (by simp [emit]) ?_
+  have hh : s.height = h := by simp at hg; exact hg.1
+  refine G_plain [.timeout h s.round sPrecommitWait] rfl rfl rfl rfl ?_ (by simp [sPrecommitWait]) rfl (by simp [emit]) ?_ ?_
   · simp [mu, sPrecommitWait]; omega
   · intro o ho; simp at ho; subst ho; exact Or.inr ⟨_, _, _, rfl⟩
+  · intro h' r' st' hm; simp at hm; obtain ⟨e1, e2, _⟩ := hm; subst e1; subst e2; exact ⟨hh.symm, Nat.le_refl _⟩
 
 /-- the generic shape of `enterPrecommit`'s result: lock fields `(lv', lr')`, possibly other proposal-block fields, one precommit
 for `v` signed at the current round, then `(round, step) := (round, Precommit)` -/
@@ -496,7 +510,7 @@ theorem precommit_leaf (s x : St) (v lv' lr' : Nat) (hst : s.step < 6)
   obtain ⟨x1, x2, x3, x4, x5, x6, x7⟩ := hx
   intro hw
   refine ⟨⟨by simp [sPrecommit], fun hl => ?_⟩, by simp [signAddVote, emit, x1], fun q => by simp [St.rv, signAddVote, emit, x2], ?_, ?_,
-    by simp [signAddVote, emit, x7], [.vote tPrecommit s.height s.round v], by simp [signAddVote, emit, x4, x1, x3], ?_, ?_, ?_, by simp [D3C]⟩
+    by simp [signAddVote, emit, x7], [.vote tPrecommit s.height s.round v], by simp [signAddVote, emit, x4, x1, x3], ?_, ?_, ?_, by simp [D3C], by simp⟩
   · simp only [signAddVote, emit, x5, x6, mu, sPrecommit] at hl ⊢
     rcases hlock hl with e | ⟨e1, e2⟩
     · omega
@@ -575,7 +589,7 @@ theorem G_commit {s s' : St} (r v : Nat) (hh : s'.height = s.height) (hrv : s'.r
   intro hw
   have hmu : mu s' = mu s := by simp [mu, hro, hst]
   refine ⟨⟨by rw [hst]; exact hw.1, fun hl => ?_⟩, hh, fun q => by simp [St.rv, hrv], by omega, fun _ => Or.inl ⟨hlv, by omega⟩,
-    hpow, _, hout, by simp [Chain, stamp, hmu], ?_, by simp, by simp [D3C]⟩
+    hpow, _, hout, by simp [Chain, stamp, hmu], ?_, by simp, by simp [D3C], by simp⟩
   · rw [hlv] at hl; have := hw.2 hl; rw [hlr, hmu]; exact this
   · intro o ho; simp at ho; subst ho; exact ⟨rfl, hv, hmaj⟩
 
@@ -1145,7 +1159,7 @@ theorem setPeerMaj_grow (i : In) (s : St) (r t src v : Nat) : Grow i s (setPeerM
 /-! ## one input -/
 
 /-- the ticker fires only timeouts the node scheduled: never for a round above the current one -/
-def WellTimed (s : St) (i : In) : Prop := ∀ h r st, i = .timeout h r st → r ≤ s.round
+def WellTimed (s : St) (i : In) : Prop := ∀ h r st, i = .timeout h r st → h = s.height → r ≤ s.round
 
 /-- `stepCore s i` is an internal transition (`G`) from a state `a` that has the height, round, step and LOCK of `s`, no outputs
 yet, and already the vote tables the step ends with -/
@@ -1162,6 +1176,11 @@ theorem learn_fields (s : St) (v t : Nat) : (learn s v t).height = s.height ∧ 
   unfold learn; split
   · simp
   · split <;> simp
+
+/-- a timeout below the node's current `(height, round, step)` changes nothing (= `stale_inputs_ignored`) -/
+theorem stale_timeout (s : St) (h r st : Nat) (hs : h ≠ s.height ∨ r < s.round ∨ (r = s.round ∧ st < s.step)) :
+    handleTimeout s h r st = s := by
+  unfold handleTimeout; simp [hs]
 
 theorem handleTimeout_G (s : St) (h r st : Nat) (hr : r ≤ s.round) : G s (handleTimeout s h r st) := by
   unfold handleTimeout
@@ -1319,7 +1338,7 @@ theorem G_lockbase {a m : St} (hh : m.height = a.height) (hrv : m.rvs = a.rvs) (
   intro hw
   have hmu : mu m = mu a := by simp [mu, hro, hst]
   refine ⟨⟨by rw [hst]; exact hw.1, fun hl => ?_⟩, hh, fun q => by simp [St.rv, hrv], by omega, fun hl => ?_, hpow, [], by simp [hout],
-    by simp [Chain, hmu], by simp, by simp, by simp [D3C]⟩
+    by simp [Chain, hmu], by simp, by simp, by simp [D3C], by simp⟩
   · rcases hlock with ⟨e1, e2⟩ | ⟨e1, _⟩
     · rw [e1] at hl; have := hw.2 hl; rw [e2, hmu]; exact this
     · exact absurd e1 hl
@@ -1476,8 +1495,11 @@ theorem stepCore_Spec (s : St) (i : In) (ht : WellTimed s i) : Spec i s (stepCor
     exact Spec_congr l1 l2 l3 l4 l5 l9 (TblOK_rvs (y := s) l7 l9) (MajMono_rvs l7) l7 (addVote_Spec _ t h r idx v src ok tot l6)
   | timeout h r st =>
     simp only
-    have hr : r ≤ s.round := ht h r st rfl
-    exact ⟨{ s with out := [], decided := false }, rfl, rfl, rfl, rfl, rfl, rfl, rfl, fun h => h, MajMono_rvs rfl, Grow_rvs rfl, handleTimeout_G _ h r st hr⟩
+    by_cases hh : h = s.height
+    · have hr : r ≤ s.round := ht h r st rfl hh
+      exact ⟨{ s with out := [], decided := false }, rfl, rfl, rfl, rfl, rfl, rfl, rfl, fun h => h, MajMono_rvs rfl, Grow_rvs rfl, handleTimeout_G _ h r st hr⟩
+    · rw [stale_timeout { s with out := [], decided := false } h r st (Or.inl hh)]
+      exact Spec_same rfl rfl rfl rfl rfl rfl rfl (fun h => h) (MajMono_rvs rfl) (Grow_rvs rfl)
   | txs =>
     simp only
     exact ⟨{ s with out := [], decided := false }, rfl, rfl, rfl, rfl, rfl, rfl, rfl, fun h => h, MajMono_rvs rfl, Grow_rvs rfl, enterPropose_G _ _ 0 (Nat.zero_le _)⟩
@@ -1501,18 +1523,20 @@ theorem Spec_unfold {i : In} {s s' : St} (hw : W s) (h : Spec i s s') :
         (t = tPrecommit → v ≠ 0 → (s'.pvs r).maj23 = some v) ∧
         (t = tPrevote → s.lockedValue ≠ 0 → v = s.lockedValue ∨ Released s'.pvs s.lockedValue s.lockedRound r)) ∧
     (∀ h r v, Out.commit h r v ∈ s'.out → h = s.height ∧ v ≠ 0 ∧ (s'.pcs r).maj23 = some v) ∧
-    (∀ h r v, Out.vote tPrecommit h r v ∈ s'.out → v ≠ 0 → Held s'.pvs s' v r) ∧ D3C s'.pvs s'.out ∧ Grow i s s' := by
+    (∀ h r v, Out.vote tPrecommit h r v ∈ s'.out → v ≠ 0 → Held s'.pvs s' v r) ∧ D3C s'.pvs s'.out ∧ Grow i s s' ∧
+    (∀ h r st, Out.timeout h r st ∈ s'.out → h = s.height ∧ r ≤ s'.round) := by
   obtain ⟨a, h1, h2, h3, h4, h5, h6, h7, h8, h9, h10, g⟩ := h
   have hwa : W a := by
     refine ⟨by rw [h3]; exact hw.1, fun hl => ?_⟩
     rw [h4] at hl; have := hw.2 hl; simp only [mu, h2, h3, h5] at this ⊢; exact this
-  obtain ⟨hw', hh, hrv, hmu, hlev, hpw, new, hout, hch, hj, hk, hd3⟩ := g hwa
+  obtain ⟨hw', hh, hrv, hmu, hlev, hpw, new, hout, hch, hj, hk, hd3, htm⟩ := g hwa
   have hpv : s'.pvs = a.pvs := pvs_eq_of_rv hrv
   have hpc : s'.pcs = a.pcs := pcs_eq_of_rv hrv
   have hmua : mu a = mu s := by simp [mu, h2, h3]
   have hout' : s'.out = new := by rw [hout, h6]; simp
   refine ⟨hw', by rw [hh, h1], by rw [hpw, h7], fun ht => TblOK_of_eq hrv hpw (h8 ht), MajMono.trans h9 (MajMono_of_rv hrv), by omega, ?_, by rw [hout', ← hmua]; exact hch, ?_, ?_, ?_, by rw [hout', hpv]; exact hd3,
-    Grow_frame h10 (fun _ => rfl) rfl hrv⟩
+    Grow_frame h10 (fun _ => rfl) rfl hrv, fun h r st hm => by
+      have := htm h r st (by rw [← hout']; exact hm); exact ⟨by rw [this.1, h1], this.2⟩⟩
   · intro hl
     have := hlev (by rw [h4]; exact hl)
     rw [h4, h5] at this
@@ -1899,6 +1923,49 @@ theorem prevote_respects_held (s : St) (i : In) (hw : W s) (ht : WellTimed s i) 
     obtain ⟨r'', x, h1, h2, h3, h4⟩ := hrel
     exact ⟨r'', x, h1, by omega, hmm r'' x h3, h4⟩
 
+/-! ## runs: the timeouts the node has scheduled -/
+
+/-- every timeout the node has scheduled is for a height it has reached and, at its current height, for a round it has reached -/
+def TimeoutsOK (s : St) (log : List Out) : Prop :=
+  ∀ h r st, Out.timeout h r st ∈ log → h < s.height ∨ (h = s.height ∧ r ≤ s.round)
+
+theorem step_shape (s : St) (i : In) :
+    step s i = stepCore s i ∨ step s i = die (stepCore s i) ∨
+      ((step s i).height = (stepCore s i).height + 1 ∧
+       (step s i).out = (stepCore s i).out ++ [.timeout ((stepCore s i).height + 1) 0 sNewHeight]) := by
+  unfold step
+  simp only
+  split
+  · unfold newHeight
+    split
+    · exact Or.inr (Or.inl rfl)
+    · right; right; simp [emit]
+  · exact Or.inl rfl
+
+theorem timeouts_step (s : St) (i : In) (log : List Out) (hw : W s) (ht : WellTimed s i) (hl : TimeoutsOK s log) :
+    TimeoutsOK (step s i) (log ++ (step s i).out) := by
+  obtain ⟨hw', hh, _, _, _, hmu, _, _, _, _, _, _, _, htm⟩ := Spec_unfold hw (stepCore_Spec s i ht)
+  have hr : s.round ≤ (stepCore s i).round := round_le_of_mu hmu hw'.1
+  have core : ∀ h r st, Out.timeout h r st ∈ log ++ (stepCore s i).out →
+      h < (stepCore s i).height ∨ (h = (stepCore s i).height ∧ r ≤ (stepCore s i).round) := by
+    intro h r st hm
+    rcases List.mem_append.1 hm with hm | hm
+    · rcases hl h r st hm with h1 | ⟨h1, h2⟩
+      · left; omega
+      · right; exact ⟨by omega, by omega⟩
+    · have := htm h r st hm; right; exact ⟨by omega, this.2⟩
+  intro h r st hm
+  rcases step_shape s i with e | e | ⟨e1, e2⟩
+  · rw [e] at hm ⊢; exact core h r st hm
+  · rw [e] at hm ⊢; simpa [die] using core h r st (by simpa [die] using hm)
+  · rw [e2, ← List.append_assoc] at hm
+    rcases List.mem_append.1 hm with hm | hm
+    · rcases core h r st hm with h1 | ⟨h1, _⟩
+      · left; omega
+      · left; omega
+    · simp at hm
+      right; exact ⟨by omega, by omega⟩
+
 theorem run_Good : ∀ (is : List In) (s : St), Good s → Timed s is → Good (run s is)
   | [], _, hg, _ => hg
   | i :: rest, s, hg, ht => run_Good rest (step s i) (step_Good s i hg ht.1) ht.2
@@ -1906,7 +1973,7 @@ theorem run_Good : ∀ (is : List In) (s : St), Good s → Timed s is → Good (
 /-! ## non-vacuity and the need for `WellTimed` -/
 
 def wellTimedB (s : St) : In → Bool
-  | .timeout _ r _ => decide (r ≤ s.round)
+  | .timeout h r _ => decide (h ≠ s.height ∨ r ≤ s.round)
   | _ => true
 
 def timedB (s : St) : List In → Bool
@@ -1914,7 +1981,11 @@ def timedB (s : St) : List In → Bool
   | i :: rest => wellTimedB s i && timedB (step s i) rest
 
 theorem wellTimed_of_B {s : St} {i : In} (h : wellTimedB s i = true) : WellTimed s i := by
-  intro h' r st e; subst e; simpa [wellTimedB] using h
+  intro h' r st e hh; subst e
+  simp only [wellTimedB, decide_eq_true_eq] at h
+  rcases h with h | h
+  · exact absurd hh h
+  · exact h
 
 theorem timed_of_B : ∀ (is : List In) (s : St), timedB s is = true → Timed s is
   | [], _, _ => trivial
